@@ -153,9 +153,10 @@ def cell_from_json(j):
 
 # ------------------------------------------------------------------------------------------ rows (Python side)
 def same_row(a, b):
-    """same (period, metadata) under Python `==` -- decided WITHOUT hashing (Metadata.__hash__ is one of
-    the things under test)."""
-    return a.period_start == b.period_start and a.period_end == b.period_end and a.metadata == b.metadata
+    """same (period, metadata) under Python `==` -- decided by the harness's own reading of `==` on Metadata
+    (py_meta_key), using neither Metadata.__hash__ nor Metadata.__eq__ (both are among the things under test)."""
+    return (a.period_start == b.period_start and a.period_end == b.period_end
+            and py_meta_key(a.metadata) == py_meta_key(b.metadata))
 
 
 def rows_of(cells):
@@ -344,6 +345,45 @@ def oracle_inc(x, cum, back):
     return bad
 
 
+def oracle_plain_dates(res):
+    """results hold plain datetime.date coordinates (family D)"""
+    if res[0] != "ok":
+        return []
+    for c in res[1].cells:
+        for name in ("period_start", "period_end", "evaluation_date", "prev_evaluation_date"):
+            if hasattr(c, name) and type(getattr(c, name)) is not datetime.date:
+                return [f"result cell holds {name} of type {type(getattr(c, name)).__name__}, not datetime.date"]
+    return []
+
+
+def oracle_state(t, r1):
+    """family H: the same call twice, and again after the caller edited the first result (dict entries of any
+    field; in-place array edits of NON-carried fields -- the carried field's array is shared with the input,
+    reported to the lead); the input must not change either."""
+    if r1[0] != "ok" or not t.cells:
+        return []
+    op = (lambda: t.to_cumulative()) if t.is_incremental else (lambda: t.to_incremental())
+    before_in = ct.canon_tri(t, ordered=True)
+    first = ct.canon_tri(r1[1], ordered=True)
+    bad = []
+    again = run_impl(op)
+    if again[0] != "ok" or ct.canon_tri(again[1], ordered=True) != first:
+        bad.append("the same conversion called twice gives different results")
+    for c in r1[1].cells:
+        for k in list(c.values):
+            v = c.values[k]
+            if isinstance(v, np.ndarray) and k != CARRY and v.flags.writeable:
+                v += 1
+            c.values[k] = 987654
+        c.values["edited_by_caller"] = 1
+    third = run_impl(op)
+    if third[0] != "ok" or ct.canon_tri(third[1], ordered=True) != first:
+        bad.append("conversion result changes after the caller edited an earlier result")
+    if ct.canon_tri(t, ordered=True) != before_in:
+        bad.append("editing a conversion result changed the input triangle")
+    return bad
+
+
 def oracle_identity(t):
     bad = []
     if t.is_incremental:
@@ -465,8 +505,12 @@ def eq_variant(rng, m, extra):
     from bermuda import Metadata
 
     def flip(v):
-        if isinstance(v, bool) or v is None:
+        if v is None:
             return v
+        if isinstance(v, bool):                       # True == 1 == 1.0
+            return rng.choice([v, int(v), float(v)])
+        if isinstance(v, int) and v in (0, 1) and rng.random() < 0.3:
+            return bool(v)
         if isinstance(v, int) and rng.random() < 0.5:
             return float(v)
         if isinstance(v, float) and v == int(v) and rng.random() < 0.5:
@@ -476,7 +520,7 @@ def eq_variant(rng, m, extra):
     kw = meta_kwargs(m)
     det = list({**kw["details"], **extra}.items())
     rng.shuffle(det)
-    ld = list(kw["loss_details"].items())
+    ld = list({**kw["loss_details"], **{"l_" + k: v for k, v in extra.items()}}.items())
     rng.shuffle(ld)
     kw["details"] = {k: flip(v) for k, v in det}
     kw["loss_details"] = {k: flip(v) for k, v in ld}
@@ -486,7 +530,7 @@ def eq_variant(rng, m, extra):
 
 def eqmeta_cells(rng, cells):
     """Every cell gets its own equal-but-distinct Metadata object."""
-    extra = {"zz_a": "x", "zz_n": 3}
+    extra = {"zz_a": "x", "zz_n": 3, "zz_b": True}
     return [rebuild(c, metadata=eq_variant(rng, c.metadata, extra)) for c in cells]
 
 
@@ -533,6 +577,198 @@ def make_sequence(rng, cells):
     recipe = {"old": [cell_to_json(c) for c in old_cells], "prehash": rng.choice(["convert", "slices", "hash", "none"]),
               "defs": defs, "new": [cell_to_json(c) for c in new_src]}
     return recipe
+
+
+# ------------------------------------------------------------------------------------------ directed streams
+# notes/HARDENING.md families; small, run on every run, judged by the same oracles and Coq verdicts
+class NoonDate(datetime.datetime):
+    """a datetime subclass carrying a time of day"""
+
+
+def _row(cls, m, ps, pe, evs, vals, basis):
+    """cells of one row; vals(i) -> values dict of the i-th CUMULATIVE cell / i-th increment"""
+    from bermuda import IncrementalCell
+
+    out, prev = [], ps - ONE
+    for i, e in enumerate(evs):
+        if basis == "inc":
+            out.append(IncrementalCell(period_start=ps, period_end=pe, prev_evaluation_date=prev, evaluation_date=e,
+                                       values=vals(i), metadata=m))
+            prev = e
+        else:
+            out.append(cls(period_start=ps, period_end=pe, evaluation_date=e, values=vals(i), metadata=m))
+    return out
+
+
+def cell_to_json_safe(c):
+    try:
+        return cell_to_json(c)
+    except Exception:  # noqa: BLE001
+        return repr(c)
+
+
+def directed_cases(ctx):
+    from bermuda import Cell, CumulativeCell, IncrementalCell, Metadata, Triangle
+
+    rng = random.Random(ctx.seed * 7919 + 4)
+    out = []
+
+    def add(label, cells, basis, n_slices=1):
+        cells = list(cells)
+        rng.shuffle(cells)
+        try:
+            with warnings.catch_warnings():
+                warnings.simplefilter("ignore")
+                t = Triangle(cells)
+                _ = t.is_incremental, [c.evaluation_date for c in t.cells]
+        except Exception as ex:  # noqa: BLE001  -- a valid directed input that cannot even be built
+            out.append({"label": label, "basis": basis, "ctor_error": f"{type(ex).__name__}: {ex}",
+                        "cells_json": [cell_to_json_safe(c) for c in cells]})
+            return
+        out.append({"label": label, "basis": basis, "tri": t, "recipe": None,
+                    "info": {"layout": "directed", "values": "directed", "n_slices": n_slices, "same_fields": True,
+                             "cls": type(cells[0]).__name__ if cells else "none", "fields": [], "basis": basis}})
+
+    def nums(fields=("paid_loss", CARRY), kind=int):
+        base = {f: rng.randint(1, 50) for f in fields}
+        return lambda i: {f: kind(base[f] + 7 * i * (j + 1)) for j, f in enumerate(fields)}
+
+    Y = lambda y, m, d: D(y, m, d)  # noqa: E731
+    evs3 = [D(2021, 12, 31), D(2022, 12, 31), D(2023, 12, 31)]
+    P = (D(2021, 1, 1), D(2021, 12, 31))
+    for basis in ("cum", "inc"):
+        # A -- one slice, every cell another spelling of the same Metadata
+        spell = [dict(per_occurrence_limit=1000, details={"coverage": "BI", "state": "NY", "flag": True, "n": 7},
+                      loss_details={"a": 1, "b": "x"}),
+                 dict(per_occurrence_limit=1000.0, details={"state": "NY", "n": 7.0, "coverage": "BI", "flag": 1},
+                      loss_details={"b": "x", "a": 1.0}),
+                 dict(per_occurrence_limit=1000, details={"n": 7, "flag": 1.0, "state": "NY", "coverage": "BI"},
+                      loss_details={"b": "x", "a": True})]
+        v = nums()
+        cells = []
+        for ps, pe in (P, (D(2022, 1, 1), D(2022, 12, 31))):
+            prev = ps - ONE
+            for i, e in enumerate([x for x in evs3 if x >= pe]):
+                m = Metadata(currency="USD", **spell[(i + ps.year) % 3])
+                cells += _row(CumulativeCell, m, ps, pe, [e], lambda _i, i=i: v(i), "cum") if basis == "cum" else \
+                    [IncrementalCell(period_start=ps, period_end=pe, prev_evaluation_date=prev, evaluation_date=e,
+                                     values=v(i), metadata=m)]
+                prev = e
+        add("eqmeta:dirA", cells, basis)
+        # B -- distinct Metadata that flatten alike: must stay distinct rows
+        metas = [Metadata(details={"k": "v"}), Metadata(loss_details={"k": "v"}),
+                 Metadata(details={"currency": "USD"}), Metadata(currency="USD"),
+                 Metadata(country=""), Metadata(), Metadata(loss_details={"only": 1}), Metadata(loss_details={"only": 2}),
+                 Metadata(details={"country": ""}), Metadata(risk_basis=None)]
+        for grp in (metas[:4], metas[4:8], metas[6:]):
+            cells = []
+            for j, m in enumerate(grp):
+                v = nums()
+                cells += _row(CumulativeCell, m, P[0], P[1], evs3, v, basis)
+            add("dir:B:flatten-alike", cells, basis, len(grp))
+        # C -- calendar corners (day before period start across Feb / year / era boundaries)
+        cal = [(Y(1900, 2, 1), Y(1900, 2, 28), [Y(1900, 2, 28), Y(1900, 3, 1), Y(1900, 3, 31)]),
+               (Y(2000, 2, 1), Y(2000, 2, 29), [Y(2000, 2, 29), Y(2000, 3, 1), Y(2000, 3, 31)]),
+               (Y(2100, 2, 1), Y(2100, 2, 28), [Y(2100, 2, 28), Y(2100, 3, 1)]),
+               (Y(2024, 3, 1), Y(2024, 3, 31), [Y(2024, 3, 30), Y(2024, 3, 31), Y(2024, 4, 1)]),
+               (Y(2023, 3, 1), Y(2023, 3, 31), [Y(2023, 3, 1), Y(2023, 3, 31), Y(2023, 4, 30)]),
+               (Y(2021, 1, 1), Y(2021, 12, 31), [Y(2021, 12, 30), Y(2021, 12, 31), Y(2022, 1, 1)]),
+               (Y(1, 1, 2), Y(1, 12, 31), [Y(1, 12, 31), Y(2, 1, 31)]),
+               (Y(9998, 1, 1), Y(9998, 12, 31), [Y(9998, 12, 31), Y(9999, 12, 30)]),
+               (Y(1969, 12, 1), Y(1969, 12, 31), [Y(1969, 12, 31), Y(1970, 1, 1), Y(1970, 1, 31)]),
+               (Y(2021, 4, 1), Y(2021, 4, 30), [Y(2021, 4, 29), Y(2021, 4, 30), Y(2021, 5, 1), Y(2021, 5, 31)]),
+               (Y(2240, 2, 1), Y(2240, 2, 29), [Y(2240, 2, 29), Y(2250, 12, 31)])]
+        for half in (cal[:6], cal[6:]):
+            cells = []
+            for ps, pe, evs in half:
+                cells += _row(CumulativeCell, Metadata(), ps, pe, evs, nums(), basis)
+                cells += _row(CumulativeCell, Metadata(country="DE"), ps, pe, evs[:2], nums(), basis)
+            add("dir:C:calendar", cells, basis, 2)
+        # E -- falsy but valid values
+        cells = _row(CumulativeCell, Metadata(per_occurrence_limit=0, details={"s": "", "f": False, "z": 0}), P[0], P[1], evs3,
+                     lambda i: {"paid_loss": 0, CARRY: 0.0, "reported_loss": 0}, basis)
+        cells += _row(CumulativeCell, Metadata(per_occurrence_limit=None, details={"s": "a", "f": True, "z": 2}), P[0], P[1], evs3,
+                      lambda i: {"paid_loss": 0.0, CARRY: None, "reported_loss": i}, basis)
+        cells += _row(CumulativeCell, Metadata(details={"s": "", "z": 2}), P[0], P[1], evs3, lambda i: {}, basis)
+        cells += _row(CumulativeCell, Metadata(country="", details={"z": 0.5}), P[0], P[1], evs3[:1], lambda i: {"paid_loss": 0}, basis)
+        add("dir:E:falsy", cells, basis, 4)
+        # F -- degenerate shapes
+        add("dir:F:empty", [], basis, 0) if basis == "cum" else None
+        add("dir:F:one-cell", _row(CumulativeCell, Metadata(), P[0], P[1], evs3[:1], nums(), basis), basis)
+        cells = _row(CumulativeCell, Metadata(country="A"), P[0], P[1], evs3,
+                     lambda i: {"paid_loss": np.array([1 + i, 2 + i, 3], dtype=np.int64), CARRY: 5.5}, basis)
+        cells += _row(CumulativeCell, Metadata(country="B"), P[0], P[1], evs3, nums(kind=float), basis)
+        add("dir:F:scalars-after-samples", cells, basis, 2)
+        # G -- NumPy corner types
+        big = 2 ** 53 + 1
+        cells = _row(CumulativeCell, Metadata(country="A"), P[0], P[1], evs3,
+                     lambda i: {"paid_loss": np.int64(big + 2 * i), CARRY: np.float64(100.5 + i), "reported_loss": big + 3 * i}, basis)
+        cells += _row(CumulativeCell, Metadata(country="B"), P[0], P[1], evs3,
+                      lambda i: {"paid_loss": np.array([1 + i, 5, 9 + 2 * i], dtype=np.int32),
+                                 "reported_loss": np.array([1.5 + i, 2.25], dtype=np.float32),
+                                 "incurred_loss": np.array([3 * i, 7], dtype=np.int16),
+                                 CARRY: (np.arange(8, dtype=np.int64) * (i + 2))[::2]}, basis)
+        cells += _row(CumulativeCell, Metadata(country="C"), P[0], P[1], evs3,
+                      lambda i: {"paid_loss": (np.arange(6, dtype=np.float64) * (i + 1.5))[1::2], "reported_loss": np.array([4.0 + i])}, basis)
+        add("dir:G:numpy-types", cells, basis, 3)
+        # J -- periods sharing a start / an end, nested, semi-monthly, per-slice ragged
+        per = [(Y(2021, 1, 1), Y(2021, 1, 31)), (Y(2021, 1, 1), Y(2021, 3, 31)), (Y(2021, 1, 1), Y(2021, 12, 31)),
+               (Y(2021, 2, 1), Y(2021, 2, 28)), (Y(2021, 3, 1), Y(2021, 12, 31)), (Y(2021, 1, 1), Y(2021, 1, 15)),
+               (Y(2021, 1, 16), Y(2021, 1, 31)), (Y(2021, 6, 1), Y(2021, 6, 30))]
+        evj = [Y(2021, 1, 31), Y(2021, 3, 31), Y(2021, 12, 31), Y(2022, 12, 31)]
+        cells = []
+        for j, (ps, pe) in enumerate(per):
+            cells += _row(CumulativeCell, Metadata(), ps, pe, [e for e in evj if e >= pe], nums(), basis)
+            if j % 2 == 0:
+                cells += _row(CumulativeCell, Metadata(currency="EUR"), ps, pe, [e for e in evj if e >= pe][:2], nums(), basis)
+        add("dir:J:overlapping-periods", cells, basis, 2)
+        # L -- valid inputs next to the refusals: must NOT be refused
+        v = nums(("paid_loss", "reported_loss", CARRY))
+        cells = _row(CumulativeCell, Metadata(), P[0], P[1], evs3, lambda i: dict(reversed(list(v(i).items()))) if i % 2 else v(i), basis)
+        cells += _row(CumulativeCell, Metadata(country="A"), Y(2021, 5, 5), Y(2021, 5, 5), [Y(2021, 5, 5), Y(2021, 5, 6)], nums(), basis)
+        cells += _row(CumulativeCell, Metadata(country="B"), P[0], P[1], evs3[:2], nums(("paid_loss",)), basis)   # other fields per row
+        add("dir:L:valid-near-refusal", cells, basis, 3)
+    # D -- coordinates (and prev_evaluation_date) given as datetime / Timestamp / datetime subclass with a time of
+    #      day: results and stored dates must be plain datetime.date, complete chains convert, round trips close
+    try:
+        import pandas as pd
+        ts = lambda d: pd.Timestamp(d.year, d.month, d.day, 17, 45)  # noqa: E731
+    except Exception:  # noqa: BLE001
+        ts = None
+    mk = [lambda d: datetime.datetime(d.year, d.month, d.day, 13, 30), lambda d: NoonDate(d.year, d.month, d.day, 12), ts or (lambda d: d)]
+    for cls in (CumulativeCell, Cell):
+        cells = []
+        for j, f in enumerate(mk):
+            v = nums()
+            m = Metadata(country="S%d" % j)
+            for i, e in enumerate(evs3):
+                cells.append(cls(period_start=f(P[0]), period_end=f(P[1]), evaluation_date=f(e), values=v(i), metadata=m))
+        add("dir:D:datetime-coordinates", cells, "cum", 3)
+    cells = []
+    for j, f in enumerate(mk):
+        v = nums()
+        m = Metadata(country="S%d" % j)
+        prev = P[0] - ONE
+        for i, e in enumerate(evs3):
+            g = mk[(i + j) % len(mk)]                     # prev spelled differently from the evaluation date
+            cells.append(IncrementalCell(period_start=f(P[0]), period_end=f(P[1]), prev_evaluation_date=g(prev),
+                                         evaluation_date=f(e), values=v(i), metadata=m))
+            prev = e
+    add("dir:D:datetime-coordinates", cells, "inc", 3)
+    stored = [type(getattr(c, n)) for c in cells for n in ("period_start", "period_end", "evaluation_date", "prev_evaluation_date")]
+    if any(tp is not datetime.date for tp in stored):
+        out.append({"label": "dir:D:datetime-coordinates", "basis": "inc",
+                    "ctor_error": "IncrementalCell stores a coordinate that is not a plain datetime.date: "
+                                  + ", ".join(sorted({tp.__name__ for tp in stored})),
+                    "cells_json": [cell_to_json_safe(c) for c in cells]})
+    # I -- restated incremental cell (same coordinates, other values): a broken chain, refused
+    base = _row(CumulativeCell, Metadata(), P[0], P[1], evs3, nums(), "inc")
+    add("dir:I:restated-inc", base + [rebuild(base[1], values={k: x + 1 for k, x in base[1].values.items()})], "inc")
+    # L -- complete chain with its LAST links removed is still complete
+    add("dir:L:truncated-chain", base[:2], "inc")
+    add("dir:L:one-inc-cell", base[:1], "inc")
+    add("dir:L:one-inc-cell-detached", base[1:2], "inc")
+    return out
 
 
 def gen_cases(ctx, n_total):
@@ -763,7 +999,8 @@ def case_data(case, extra=None):
 
 def oracles_for(case):
     t = case["tri"]
-    if "r1" not in case:
+    if "r1" not in case or case.get("r1_edited"):
+        case.pop("r1_edited", None)
         if t.is_incremental:
             r1 = run_impl(lambda: t.to_cumulative())
             r2 = run_impl(lambda: r1[1].to_incremental()) if r1[0] == "ok" else r1
@@ -774,13 +1011,16 @@ def oracles_for(case):
     global PYMETA
     PYMETA = case["label"].startswith(("eqmeta", "seq"))
     try:
-        bad = oracle_identity(t)
+        bad = oracle_identity(t) + oracle_plain_dates(case["r1"]) + oracle_plain_dates(case["r2"])
         if case["label"].startswith("exotic"):
             return bad
         if t.is_incremental:
             bad += oracle_inc(t, case["r1"], case["r2"])
         else:
             bad += oracle_cum(t, case["r1"], case["r2"])
+        # last: it edits case["r1"] (already judged above, already printed for Coq)
+        bad += oracle_state(t, case["r1"])
+        case["r1_edited"] = True
         return bad
     finally:
         PYMETA = False
@@ -863,7 +1103,11 @@ def run(ctx):
         "mismatch, length-1 arrays, scalar/array mix, int/float mix, duplicate cells, key order); ~12% 'eqmeta': every "
         "cell carries its own equal-but-distinct Metadata object (detail keys in another insertion order, 7 vs 7.0), "
         "partly with a malformed chain; ~5% 'seq': hash/convert an old triangle, derive_metadata, append a valuation "
-        "with directly built equal Metadata, convert. Non-trivial = "
+        "with directly built equal Metadata, convert; plus ~60 directed cases per run for the input families of "
+        "notes/HARDENING.md (A equal spellings incl. True/1/1.0, B flatten-alike metadata, C calendar corners, D datetime/"
+        "Timestamp coordinates, E falsy values and empty value dicts, F empty/one-cell/scalars-after-samples, G numpy scalar "
+        "and narrow/strided array types, H repeated calls and calls after the caller edited a result (every case), I restated "
+        "cells, J overlapping/nested periods, L valid inputs next to each refusal). Non-trivial = "
         "distinct canonical input with >= 2 cells or a refusal.")
     ctx.assumptions += [
         "harness prints value dicts with sorted keys; result key order (Python set iteration) is not modelled",
@@ -904,6 +1148,13 @@ def _run(ctx):
     # 2. cases
     n_total = 960 if ctx.quick else 6400
     cases = [c for c in gen_cases(ctx, n_total)]
+    for c in directed_cases(ctx):
+        if "ctor_error" in c:
+            ctx.violation("impl-violation", f"valid directed input ({c['label']}) is not built as the property requires: "
+                          f"{c['ctor_error']}", {"label": c["label"], "cells": c["cells_json"], "error": c["ctor_error"]},
+                          found_input=True)
+        else:
+            cases.append(c)
     keep = []
     for c in cases:
         if not metadata_print_consistent(c["tri"], strict=not c["label"].startswith("eqmeta")):
@@ -921,7 +1172,13 @@ def _run(ctx):
     n_viol = 0
     seen = set()
     for c in cases:
-        if "r1" not in c:
+        if "r1" not in c:               # not printable as a Coq term: the Python oracles still judge it
+            ctx.hist(f"label:{c['label']} (python oracles only)")
+            bad = oracles_for(c)
+            if bad and n_viol < 3:
+                n_viol += 1
+                ctx.violation("impl-violation", f"C04 fails on the implementation ({c['label']}): {bad[0]}",
+                              case_data(c, {"complaints": bad}), found_input=True)
             continue
         t = c["tri"]
         ctx.hist(f"label:{c['label']}")
